@@ -114,3 +114,67 @@ func VerifC15_Parse(cs int) {
 	VsReach("query-parsed")
 	VsAssert("parsing-returns-an-engine-or-an-error", !panicked)
 }
+
+var vQAccessorSources = []string{"", ".Individuals", ".Families", ".Individuals | First(1)", ".Individuals | .Name", ".Individuals | .Birth",
+	".Families | .Husband", ".Nodes", ".Individuals | .Name | .String", ".Individuals | Length"}
+
+// VerifC15_Accessors: every accessor that reflection exposes on the result of a source (the list that
+// "source | ?" prints) is applied to that source, on the 4 document sets. cs%len(sources) = source,
+// cs/len(sources)%4 = documents.
+func VerifC15_Accessors(cs int) {
+	source := vQAccessorSources[cs%len(vQAccessorSources)]
+	which := cs / len(vQAccessorSources) % 4
+	list := "?"
+	if source != "" {
+		list = source + " | ?"
+	}
+	engine, err := NewParser().ParseString(list)
+	VsAssume(err == nil)
+	res, err := engine.Evaluate(vQDocs(which))
+	VsAssume(err == nil)
+	names, _ := res.([]string)
+	VsReach("accessors-listed")
+	tried := 0
+	for _, name := range names {
+		if !strings.HasPrefix(name, ".") {
+			continue
+		}
+		query := name
+		if source != "" {
+			query = source + " | " + name
+		}
+		o := vQRun(query, vQDocs(which)) // fresh documents: accessors such as .AddNode would modify them
+		tried++
+		if o.panicked {
+			VsClassSet(name + ":" + o.where + ":" + vQMsgClass(o.panicMsg))
+		}
+		VsAssert("accessor-returns-a-value-or-an-error", !o.panicked)
+	}
+	VsObserve(tried)
+	VsAssert("some-accessors-were-tried", tried > 0 || len(names) > 0)
+}
+
+var vQArguments = []string{"First(\"-1\")", "Last(\"-1\")", "First(\"x\")", "Last(\"\")", "First(\"99999999999999999999\")", "Last(\"1.5\")",
+	"First(.Pointer)", "Last(Length)", "First(First(1))", "Only(Length)", "Only(\"true\")", "Only(?)", "NodesWithTagPath(\"\")",
+	"NodesWithTagPath(.Pointer)", "NodesWithTagPath(\"BIRT\", Length)", "Combine(\"a\", \"b\")", "Combine(Length, Length)", "Combine(?, .Individuals)",
+	"Combine(.Individuals | First(1), .Individuals)", "{ a: First(\"-1\") }", "MergeDocumentsAndIndividuals(\"a\", \"b\")",
+	"MergeDocumentsAndIndividuals(.Individuals, Document1)", "MergeDocumentsAndIndividuals(Document1, Document1)", ". = .", "? = ?", "Length > .Individuals"}
+
+// VerifC15_Arguments: functions with ill-typed, negative, huge and nested arguments.
+// cs%len(arguments) = stage, cs/len(arguments)%3 = source, documents alternate.
+func VerifC15_Arguments(cs int) {
+	stage := vQArguments[cs%len(vQArguments)]
+	source := []string{".Individuals", "", ".Individuals | .Name | .String"}[cs/len(vQArguments)%3]
+	query := stage
+	if source != "" {
+		query = source + " | " + stage
+	}
+	o := vQRun(query, vQDocs(cs/len(vQArguments)/3%2*3))
+	VsObserve(query)
+	VsObserve(o.panicked)
+	VsReach("argument-query-evaluated")
+	if o.panicked {
+		VsClassSet(o.where + ":" + vQMsgClass(o.panicMsg))
+	}
+	VsAssert("ill-typed-argument-returns-a-value-or-an-error", !o.panicked)
+}
